@@ -89,7 +89,7 @@ fn run_case(rep: &Report, ch: &mut Chooser, sizes: &[usize], local: &mut Vec<(u6
 
 pub fn check(rep: &Report) {
     let t = crate::thorough(&rep.tier);
-    rep.rule("(a) stream sets = 1..3 streams with sizes from {0,1,63,64,65,4095,4096,4097,8191,8192,65536} (all singles, all ordered pairs, selected triples; thorough adds a 15.3 MB stream whose 236 FAT sectors fill the header DIFAT and one complete DIFAT sector); layout = v3/v4 x 8 sector orders x 4 mini-sector orders x unused directory entries x directory order x free sectors x extra FAT sectors x free mini sectors x stale bytes after the directory-name terminator x junk in the upper half of v3 size fields x a mini FAT sector without mini stream x chains owning 2 spare sectors; full layout product (73728) per set in thorough, <=2 deviations in quick plus the full product on 6 sets; non-trivial = non-default layout; distinct by container bytes; (b) end to end: one xls workbook with a two-module VBA project (Workbook stream below or above the 4096-byte cutoff) in the same layouts (quick <= 2 deviations, thorough full product) must read as the same ranges, module bytes and references as in the default layout");
+    rep.rule("(a) stream sets = 1..3 streams with sizes from {0,1,63,64,65,4095,4096,4097,8191,8192,65536} (all singles, all ordered pairs, selected triples; a 7.3 MB and a 15.9 MB stream, the latter needing two DIFAT sectors; thorough adds a 15.3 MB stream whose 236 FAT sectors fill the header DIFAT and one complete DIFAT sector); layout = v3/v4 x 8 sector orders x 4 mini-sector orders x unused directory entries x directory order x free sectors x extra FAT sectors x free mini sectors x stale bytes after the directory-name terminator x junk in the upper half of v3 size fields x a mini FAT sector without mini stream x chains owning 2 spare sectors; full layout product (73728) per set in thorough, <=2 deviations in quick plus the full product on 6 sets; non-trivial = non-default layout; distinct by container bytes; (b) end to end: one xls workbook with a two-module VBA project (Workbook stream below or above the 4096-byte cutoff) in the same layouts (quick <= 2 deviations, thorough full product) must read as the same ranges, module bytes and references as in the default layout");
     rep.assume("zero-length streams are written with start sector ENDOFCHAIN; the red-black colouring of the directory tree is not varied (calamine does not walk the tree)");
     let sizes = [0usize, 1, 63, 64, 65, 4095, 4096, 4097, 8191, 8192, 65536];
     let mut sets: Vec<Vec<usize>> = vec![];
@@ -124,6 +124,18 @@ pub fn check(rep: &Report) {
         stats.lock().unwrap().merge(&st);
         crate::engine::crumb::clear();
     }
+    {
+        // 15.9 MB: 243 FAT sectors = the 109 header slots, one complete DIFAT sector and a second, partly filled one whose
+        // predecessor's last slot is a link, not a FAT sector (only the three base sector orders, everything else default)
+        crate::engine::crumb::set_job("C13 sizes=[15900000, 100]");
+        let big = vec![15_900_000usize, 100];
+        let mut st = Stats::default();
+        let mut local = vec![];
+        for pre in [vec![0u32], vec![0, 1], vec![0, 2]] { crate::engine::choice::run_one(|ch| run_case(rep, ch, &big, &mut local, false), &pre); st.executions += 1; }
+        rep.cases_bulk(&local);
+        stats.lock().unwrap().merge(&st);
+        crate::engine::crumb::clear();
+    }
     if t {
         // one large stream: > 109 FAT sectors in v3 => DIFAT chain
         crate::engine::crumb::set_job("C13 sizes=[15334400, 100]");
@@ -147,6 +159,7 @@ pub fn check(rep: &Report) {
 pub fn replay(path: &str) -> i32 {
     let Ok(s) = std::fs::read_to_string(path) else { return 2 };
     let v: serde_json::Value = serde_json::from_str(&s).unwrap();
+    if let Some(c) = crate::props::corpus::replay_fixture(&v) { return c; }
     if v.get("sizes").is_none() { return super::c13_e2e::replay(&v); }
     let choices: Vec<u32> = v["choices"].as_array().unwrap().iter().map(|x| x.as_u64().unwrap() as u32).collect();
     let sizes: Vec<usize> = v["sizes"].as_array().unwrap().iter().map(|x| x.as_u64().unwrap() as usize).collect();
